@@ -134,7 +134,7 @@ func (P *Prog) checkNoGlobalState(r *Result) {
 		mcGlobal:  "state in a package-level variable survives into later executions",
 		mcFreeVar: "state in a closure capture survives into later executions",
 	})
-	r.floor("C07/no-global-state", 60)
+	r.floor("C07/no-global-state", 30)
 	// positive control: the classifier must see ClearPools' stores as global writes
 	ctl := P.fn("zog/internals.ClearPools")
 	if ctl == nil {
